@@ -15,16 +15,19 @@ import (
 )
 
 type ExploreConfig struct {
-	Entry      *ssa.Function
-	Workers    int
-	MaxPaths   int
-	MaxSteps   int
-	Solver     string
-	TimeoutMs  int
-	Deadline   time.Time
-	LogSMT     string // directory for transcripts (debug)
-	KeepFuncs  bool
-	StopOnViol int // stop after this many violating paths (0 = never)
+	Entry        *ssa.Function
+	Workers      int
+	MaxPaths     int
+	MaxSteps     int
+	Solver       string
+	TimeoutMs    int
+	Deadline     time.Time
+	LogSMT       string // directory for transcripts (debug)
+	KeepFuncs    bool
+	StopOnViol   int // stop after this many violating paths (0 = never)
+	Params       map[string]int64
+	SampleModels int // keep an end-of-path model for this many paths
+	sampled      *int
 }
 
 type ExploreResult struct {
@@ -35,6 +38,18 @@ type ExploreResult struct {
 	MaxQueryMs   float64
 	SolverErrors []string
 	Wall         time.Duration
+}
+
+var sampleMu sync.Mutex
+
+func (c *ExploreConfig) sampleSlot() bool {
+	sampleMu.Lock()
+	defer sampleMu.Unlock()
+	if c.sampled == nil || *c.sampled >= c.SampleModels {
+		return false
+	}
+	*c.sampled++
+	return true
 }
 
 // Explore runs the harness entry over all feasible paths.
@@ -54,6 +69,7 @@ func (in *Interp) Explore(cfg ExploreConfig) *ExploreResult {
 	if cfg.TimeoutMs <= 0 {
 		cfg.TimeoutMs = 20000
 	}
+	cfg.sampled = new(int)
 	t0 := time.Now()
 	var mu sync.Mutex
 	cond := sync.NewCond(&mu)
@@ -164,16 +180,18 @@ func (in *Interp) Explore(cfg ExploreConfig) *ExploreResult {
 
 func (in *Interp) newPath(sess *smt.Session, maxSteps int) *Path {
 	p := &Path{
-		in:       in,
-		sess:     sess,
-		pcSet:    map[*smt.Term]bool{},
-		pcNeg:    map[*smt.Term]bool{},
-		occ:      map[string]int{},
-		calls:    map[*ssa.Function]int{},
-		stubs:    map[string]*ssa.Function{},
-		known:    map[string]*smt.Term{},
-		maxSteps: maxSteps,
-		res:      &PathResult{Observed: map[string]string{}, choiceVals: map[string]int64{}},
+		in:         in,
+		sess:       sess,
+		pcSet:      map[*smt.Term]bool{},
+		pcNeg:      map[*smt.Term]bool{},
+		pcNames:    map[string]bool{},
+		pcNegNames: map[string]bool{},
+		occ:        map[string]int{},
+		calls:      map[*ssa.Function]int{},
+		stubs:      map[string]*ssa.Function{},
+		known:      map[string]*smt.Term{},
+		maxSteps:   maxSteps,
+		res:        &PathResult{Observed: map[string]string{}, choiceVals: map[string]int64{}},
 	}
 	return p
 }
@@ -181,6 +199,7 @@ func (in *Interp) newPath(sess *smt.Session, maxSteps int) *Path {
 func (in *Interp) runPath(sess *smt.Session, cfg ExploreConfig, prefix []int64) (pr *PathResult) {
 	p := in.newPath(sess, cfg.MaxSteps)
 	p.prefix = prefix
+	p.params = cfg.Params
 	if cfg.KeepFuncs {
 		p.res.Funcs = map[string]bool{}
 	}
@@ -191,6 +210,14 @@ func (in *Interp) runPath(sess *smt.Session, cfg ExploreConfig, prefix []int64) 
 		switch r := r.(type) {
 		case nil:
 			p.res.Outcome = "end"
+			if cfg.sampleSlot() {
+				func() {
+					defer func() { recover() }()
+					if sess.Check(nil) == smt.Sat {
+						p.res.EndModel = p.model()
+					}
+				}()
+			}
 		case abort:
 			p.res.Outcome = "abort:" + r.reason
 		case stopPath:
